@@ -109,6 +109,9 @@ func runRegistry(withStops bool) func(rc *core.RunCtx) {
 			// an application actor whose id looks like the ids the engine makes up
 			// for the temporary response processes of Request
 			ids[len(ids)-1] = fmt.Sprintf("response/%d", g.Range(1, 3))
+		} else if g.Bool(0.2) {
+			// a kind/id pair that a path cleaner would rewrite
+			ids[len(ids)-1] = []string{"reg//d", "reg/./e", "reg/a/../f"}[g.IntN(3)]
 		}
 		slowStopped := g.Pick(2, 1, 1) // yields inside Stopped: a shutdown that takes a while
 		ntasks := 2 + g.Pick(3, 3, 2)
@@ -389,7 +392,12 @@ func runRegChildren(rc *core.RunCtx) {
 	g := simrt.G()
 	env := NewEnv(rc)
 	mon := env.NewMonitor("mon")
-	parent := &Spec{Kind: "par", ID: "p", MaxRestarts: 0, InboxSize: 1024, PanicInit: map[int]bool{}, PanicStarted: map[int]bool{}, PanicStopped: map[int]bool{}}
+	const (
+		opCrashParent = 10
+		opSpawnTop    = 11
+	)
+	parentCrashes := 0
+	parent := &Spec{Kind: "par", ID: "p", MaxRestarts: 2, InboxSize: 1024, PanicInit: map[int]bool{}, PanicStarted: map[int]bool{}, PanicStopped: map[int]bool{}}
 	env.Spawn(parent)
 	nids := g.Range(1, 2)
 	var ids []string
@@ -413,8 +421,21 @@ func runRegChildren(rc *core.RunCtx) {
 		n := g.Range(1, maxOps)
 		var sb strings.Builder
 		for i := 0; i < n; i++ {
-			o := chOp{op: g.Pick(5, 2, 3), id: ids[g.IntN(len(ids))]}
+			o := chOp{op: g.Pick(10, 4, 6, 1, 2), id: ids[g.IntN(len(ids))]}
 			switch o.op {
+			case 3: // the parent crashes on a message and is restarted: its children stay its children
+				if parentCrashes >= 2 {
+					o.op = rGetPID
+					fmt.Fprintf(&sb, "GetPID(%s) ", o.id)
+					break
+				}
+				parentCrashes++
+				o.op = opCrashParent
+				fmt.Fprintf(&sb, "CrashParent ")
+			case 4: // somebody spawns a top-level actor under a child-looking id: it is nobody's child
+				o.op = opSpawnTop
+				o.spec = &Spec{Kind: kindOf(o.id), ID: idOf(o.id), MaxRestarts: 1, InboxSize: 4, PanicInit: map[int]bool{}, PanicStarted: map[int]bool{}, PanicStopped: map[int]bool{}}
+				fmt.Fprintf(&sb, "Spawn(%s) ", o.id)
 			case rSpawn:
 				o.doomed = g.Bool(0.4)
 				sp := &Spec{Kind: kindOf(o.id), ID: idOf(o.id), MaxRestarts: g.Range(0, 2), InboxSize: 4, SlowStopped: g.Pick(3, 1, 1, 1), PanicInit: map[int]bool{}, PanicStarted: map[int]bool{}, PanicStopped: map[int]bool{}}
@@ -518,6 +539,25 @@ func runRegChildren(rc *core.RunCtx) {
 					seq++
 					simrt.Ev("getpid t%d %s -> %v", t, o.id, p != nil)
 					hist = append(hist, porcupine.Operation{ClientId: t, Input: regIn{rGetPID, o.id}, Call: call, Output: regOut{Present: p != nil}, Return: seq})
+				case opCrashParent:
+					m := env.NewMsg(fmt.Sprintf("t%d", t), i)
+					m.Op = cPanic
+					env.Send(fmt.Sprintf("t%d", t), parent.FullID(), m, nil)
+				case opSpawnTop:
+					seq++
+					call := seq
+					won := false
+					prod := env.producer(o.spec, "")
+					env.E.Spawn(func() actor.Receiver { won = true; return prod() }, o.spec.Kind, env.opts(o.spec)...)
+					seq++
+					simrt.Ev("spawn-top t%d %s won=%v", t, o.id, won)
+					hist = append(hist, porcupine.Operation{ClientId: t, Input: regIn{rSpawn, o.id}, Call: call, Output: regOut{Won: won}, Return: seq})
+					if won {
+						winning[o.id]++
+						wantProd[o.id]++
+					} else {
+						losing[o.id]++
+					}
 				}
 			}
 			finished++
@@ -561,9 +601,14 @@ func runRegChildren(rc *core.RunCtx) {
 	// of pool ids that are registered now - whatever duplicate spawns, deaths at
 	// birth, stops by third parties and respawns happened - and a parent that
 	// is poisoned now takes every one of them down before it stops itself
-	var alive []string
+	var alive []string     // registered children of the parent
+	topLevel := map[string]bool{} // pool ids currently held by a top-level actor (nobody's child)
 	for _, id := range ids {
 		if env.E.Registry.GetPID(kindOf(id), idOf(id)) != nil {
+			if in := env.actors[id]; in != nil && in.Parent == "" {
+				topLevel[id] = true
+				continue
+			}
 			alive = append(alive, id)
 		}
 	}
@@ -602,6 +647,25 @@ func runRegChildren(rc *core.RunCtx) {
 		rc.Violate2(own, "live-actor-unregistered/respawn-during-parent-shutdown", "%s: a top-level actor was spawned under this id after the child had left the registry; nobody stopped it, yet it is not registered any more", respawnID)
 	}
 	for _, id := range ids {
+		if topLevel[id] {
+			// a top-level actor that happens to carry a child-looking id: the
+			// parent's shutdown is none of its business
+			insts := env.byID[id]
+			last := insts[len(insts)-1]
+			gotStopped := false
+			for _, inc := range last.Incs {
+				for _, d := range inc {
+					if d.Kind == dStopped {
+						gotStopped = true
+					}
+				}
+			}
+			if gotStopped || env.E.Registry.GetPID(kindOf(id), idOf(id)) == nil {
+				rc.Violate2(own, "live-actor-unregistered/top-level-actor-under-child-id", "%s was spawned as a top-level actor (not through SpawnChild); when %s shut down it was stopped=%v and is registered=%v", id, parent.FullID(), gotStopped, env.E.Registry.GetPID(kindOf(id), idOf(id)) != nil)
+				rc.Violate2("C08", "foreign-actor-stopped-with-parent", "%s is not a child of %s (it was spawned top-level), yet it was stopped when %s shut down", id, parent.FullID(), parent.FullID())
+			}
+			continue
+		}
 		if id == respawnID && respawnWon {
 			// the id belongs to the new top-level actor now; the children that ran
 			// under it before must all be gone
